@@ -1827,6 +1827,18 @@ impl Zeroconf {
                 });
                 if my_intf.addrs.is_empty() {
                     deleted_intfs.push((*if_index, last_ipv4, last_ipv6))
+                } else {
+                    // The interface stays with the other IP version only: as in
+                    // `del_interface_addr`, forget the addresses learned over the
+                    // version that is gone.
+                    if last_ipv4.is_some() && my_intf.next_ifaddr_v4().is_none() {
+                        self.cache
+                            .remove_addrs_on_disabled_intf(*if_index, IpType::V4);
+                    }
+                    if last_ipv6.is_some() && my_intf.next_ifaddr_v6().is_none() {
+                        self.cache
+                            .remove_addrs_on_disabled_intf(*if_index, IpType::V6);
+                    }
                 }
             } else {
                 // If it does not exist, remove the interface.
